@@ -1,24 +1,25 @@
 """Per-property metadata for the driver: shard counts, wall limits, evidence rule text."""
 
 ADDENDA = {
+    "C11": " Behaviour 'reset': the work connection is delivered and then aborted (RST) while it sits in the pool, so the server's StartWorkConn write fails.",
     "C01": " long_lived: connections that still carry data 30 s after accept. abort_then_transfer: an aborted connection followed by a full transfer on the same proxy.",
     "C02": " http routes are in a third of the cases the only member of a load-balancing group (the route is then made by the group controller, not by the proxy).",
     "C03": " Faults: the control connection is cut (udp and sudp) or the backend goes away for a while; after the fault the sender pauses longer than the re-establishment window, so later datagrams are outside the exclusion.",
-    "C04": " ssh_gateway ops (thorough and quick): logins through the ssh tunnel gateway with authorized / unauthorized keys. invalid_heartbeats: a session fed only wrong-key heartbeats must end by the heartbeat timeout. sequences also runs the ssh gateway WITHOUT authorized_keys (any ssh peer passes the ssh 'none' method; the token given on the command line is the credential): with the right token the tunnel comes up, with a wrong / empty / absent token no session and no proxy may appear. oidc_token_expiry: the session logs in with an OIDC token that expires 2..3 s later, presents it 0..3 more times while valid and keeps itself alive with fresh tokens; after the expiry a work connection carrying the old token must be refused and closed, and heartbeats carrying it must not keep the session alive.",
+    "C04": " ssh_gateway ops (thorough and quick): logins through the ssh tunnel gateway with authorized / unauthorized keys. invalid_heartbeats: a session fed only wrong-key heartbeats must end by the heartbeat timeout. sequences also runs the ssh gateway WITHOUT authorized_keys (any ssh peer passes the ssh 'none' method; the token given on the command line is the credential): with the right token the tunnel comes up, with a wrong / empty / absent token no session and no proxy may appear. oidc_token_expiry: the session logs in with an OIDC token that expires 2..3 s later, presents it 0..3 more times while valid and keeps itself alive with fresh tokens; after the expiry a work connection carrying the old token must be refused and closed, and heartbeats carrying it must not keep the session alive. invalid_heartbeats: in half of the cases the session also sends a CloseProxy for a name it does not own with every heartbeat (other control traffic is no heartbeat). sequences draws the quic listener in the quick tier too.",
     "C05": " A fault variant removes the client's TLS material after the first login (re-login must not fall back to clear text). Half of the wire cases give frpc its configuration as a file (TOML, or legacy INI) read by frp's own loader. identity_matrix also draws a server without certificate files of its own (generated certificate) for every combination.",
     "C06": " https_wire: real ClientHellos against the https muxer with multi-route proxies; a name matching no live route must be closed, never bridged and never left hanging.",
     "C07": " tcpmux_group_credentials: credential-protected tcpmux groups; http_routes also draws the '/' location and empty request paths.",
     "C08": " gated_handoff_vs_reregistration: a visitor stream is held between 'request checked' and the hand-off while the proxy is closed and its name registered again (other key / other allow-list, same or other session); it must never be bridged to the new registration. A wrong-signature NAT-hole / visitor request must be answered with an error within the bound (the harness's own table snapshot is bounded, so a wedged server is reported, not waited for).",
     "C09": " server_histories also drops a session while one of its registrations is in flight. manager_model: a quarter of the acquisitions are bound by their owner only after the next operation (the port manager grants, the proxy listens later: two registrations in flight at once).",
     "C10": " Also server-chosen (-any) port kinds and joins by a wrong-key intruder; the bystander also owns an http and a tcpmux route for user bob on the very domains the session under test uses (kept apart by routeByHTTPUser only) and is probed after every cycle. same_session_churn: ONE long-lived session registers, uses (0..3 exchanges per proxy, http users with or without keep-alive, stcp/sudp visitors) and closes 1..4 of 13 proxy kinds for 2..12 cycles (what a reload does); after every CloseProxy the work connections started for the closed proxies must be closed by the server within 4 s, the identical registration right after the close request must succeed, the tables must be back at the state before the cycle, two proxies of the same session that are never closed (a tcp tunnel with one user connection held open over all cycles, an http route used over one keep-alive connection) must keep working, and 12 identical cycles must not grow goroutines / descriptors; in half of the cases users of the udp kinds keep sending datagrams while the proxy is closed (frps must survive). listen_fails_after_acquire: deterministic probes (gate between port acquisition and listen, tcp and udp, maxPortsPerClient = 1): another process binds the port in that window, the registration must be refused, the tables must return to the state before, and the identical registration must succeed once the port is free.",
-    "C12": " Also a session drop with a registration in flight (regdrop), two sessions asking for the same name at the same moment (race: at most one is granted, a free name is granted to one of them), and sessions holding 10 / 40 / 120 further names (bulk) so that the teardown a re-login waits for takes a while; every name is re-registered right after the re-login is acknowledged. slow_teardown_relogin: the old session owns 1..3 live proxies and is in the middle of a registration that a NewProxy server plugin holds for 0.3 .. 3.5 s (userConnTimeout 1..2 s) when the client logs in again with its run id: once the login is acknowledged every earlier name must be registrable at once, the half-done registration must not outlive the old session, and the tunnels answer from the new session.",
+    "C12": " Also a session drop with a registration in flight (regdrop), two sessions asking for the same name at the same moment (race: at most one is granted, a free name is granted to one of them), and sessions holding 10 / 40 / 120 further names (bulk) so that the teardown a re-login waits for takes a while; every name is re-registered right after the re-login is acknowledged. slow_teardown_relogin: the old session owns 1..3 live proxies and is in the middle of a registration that a NewProxy server plugin holds for 0.3 .. 3.5 s (userConnTimeout 1..2 s) when the client logs in again with its run id: once the login is acknowledged every earlier name must be registrable at once, the half-done registration must not outlive the old session, and the tunnels answer from the new session. histories: one of the four names has upper-case letters; op regfail = a registration of that name that fails while the proxy is started (port outside allowPorts) must be refused and leave nothing behind.",
     "C13": " Odd-numbered http / tcpmux groups spell their domain with upper-case letters.",
     "C14": " server_watchdog draws timeouts of 2 / 3 / 5 / 6 s with 0..8 heartbeats before the silence (every phase of the server's checking rhythm). backoff_bound: the delay sequence of the login loop for generated option sets (incl. the production ones) and up to 40 attempts: never above the maximum, never zero after a failure, grown by the factor in between. client_watchdog_backoff also checks run-id continuity (every re-login presents the run id the server last gave). healing faults: refuse, cut, black hole, dark (half-open) relay, reload during the outage, default loginFailExit, 120+ proxies.",
-    "C15": " Outcomes also include content with trailing JSON after the response object. call_sites with heartbeatTimeout 2 s (a third of the cases): a session whose every heartbeat is refused by the Ping plugins must be gone within 7 s however often it pings; accepted heartbeats keep it alive for the rest of the script. manager_chains also draws the outcome 'scrub' - an edit that REMOVES something (the metas entry 'role' of a Login / NewProxy, leaving the entry 'keep'): every later plugin and the server must see the content without it.",
+    "C15": " Outcomes also include content with trailing JSON after the response object. call_sites with heartbeatTimeout 2 s (a third of the cases): a session whose every heartbeat is refused by the Ping plugins must be gone within 7 s however often it pings; accepted heartbeats keep it alive for the rest of the script. manager_chains also draws the outcome 'scrub' - an edit that REMOVES something (the metas entry 'role' of a Login / NewProxy, leaving the entry 'keep'): every later plugin and the server must see the content without it. call_sites endings: close, drop, or relogin (the session is replaced by a login with its run id; every proxy of the replaced session is announced as closed).",
     "C16": " frps_barrage also sends 0..8 generated hostile requests of anonymous users (HTTP-shaped with hostile methods / targets / header names and values such as a bare 'Basic', unterminated heads, smuggled second requests; mangled TLS ClientHellos) to the vhost http / https, tcpmux and bind ports. frps_churn also draws visitor floods, twin re-logins, registrations beyond the limits, quota, and checks that bystander heartbeats keep being answered. frpc_stop_at_login: stop while the login is outstanding. frps_churn also registers udp proxies whose owner answers every user datagram on the work connection with hand-made UDPPacket frames (no / null / empty address, port out of range, zone, content that is not base64 or of the wrong JSON type, other message types) before the proper reply.",
-    "C17": " live_first_message also keeps 0..3 peers stalled in the middle of their first frame while an honest login must complete within 3 s, and a peer that pipelines Login + encrypted Ping in one write (3 split variants). udp_content: payloads handed out by the udp packet decoder keep their content while further packets are decoded. nathole_datagram: the encrypted one-frame datagrams of hole punching (nathole.EncodeMessage / DecodeMessageInto): round trip under the same key, every proper prefix of a valid datagram is an error, 0..48 random bytes and correctly keyed envelopes around 0..24-byte plaintexts / hand-made frames with hostile type and length fields never panic.",
+    "C17": " live_first_message also keeps 0..3 peers stalled in the middle of their first frame while an honest login must complete within 3 s, and a peer that pipelines Login + encrypted Ping in one write (3 split variants). udp_content: payloads handed out by the udp packet decoder keep their content while further packets are decoded. nathole_datagram: the encrypted one-frame datagrams of hole punching (nathole.EncodeMessage / DecodeMessageInto): round trip under the same key, every proper prefix of a valid datagram is an error, 0..48 random bytes and correctly keyed envelopes around 0..24-byte plaintexts / hand-made frames with hostile type and length fields never panic. nathole_datagram also compares with the released format: the datagram deciphers (golib crypto, same key, also the empty key) to exactly the control frame, and a reference-enciphered frame is read back.",
     "C18": " env_template: {{ .Envs.X }} with values containing '=', base64, leading / trailing space, empty. concurrent_strict: strict and non-strict loads of 1..120-proxy files running concurrently; the strict ones must still reject an unknown key.",
-    "C19": " reload_while_disconnected: the session is cut and logins are refused / dropped, one or two configurations are loaded meanwhile, logins are accepted again: exactly the last loaded set is registered on the new session. health_gating: the first registration of a proxy may be answered 1.5 / 2.6 s late, so the verdict changes while the answer is outstanding. health_flap_backoff: a backend flapping up/down; stop_during_send and stale_visitor_config are deterministic probes. visitor_reload: a real frps, a real owner (stcp, sudp, xtcp proxies with echo backends) and a real frpc holding 0..3 visitors of kinds stcp / sudp / xtcp; 1..3 reloads replace the visitor set while tcp users hold connections and (half of the cases) udp users keep sending: removed visitors' ports are free within 3 s, the connection a user opened through an unchanged visitor before the reload still echoes afterwards, every configured visitor is bound within 13 s and carries an echo to the owner's backend, and frpc survives. reload_at_login: deterministic probe - a configuration is loaded while a login is between copying the configuration and publishing its control (gate); the server must end with the loaded set. health_gating: a third of the http checks have timeout 3 s > interval 1 s and scripts with 'slow' probes (200 after 1.6 s: later than the interval, within the timeout - a success). reload_convergence variants include a change the server never sees (only the local port differs): the entry changed all the same and must be closed and registered again.",
+    "C19": " reload_while_disconnected: the session is cut and logins are refused / dropped, one or two configurations are loaded meanwhile, logins are accepted again: exactly the last loaded set is registered on the new session. health_gating: the first registration of a proxy may be answered 1.5 / 2.6 s late, so the verdict changes while the answer is outstanding. health_flap_backoff: a backend flapping up/down; stop_during_send and stale_visitor_config are deterministic probes. visitor_reload: a real frps, a real owner (stcp, sudp, xtcp proxies with echo backends) and a real frpc holding 0..3 visitors of kinds stcp / sudp / xtcp; 1..3 reloads replace the visitor set while tcp users hold connections and (half of the cases) udp users keep sending: removed visitors' ports are free within 3 s, the connection a user opened through an unchanged visitor before the reload still echoes afterwards, every configured visitor is bound within 13 s and carries an echo to the owner's backend, and frpc survives. reload_at_login: deterministic probe - a configuration is loaded while a login is between copying the configuration and publishing its control (gate); the server must end with the loaded set. health_gating: a third of the http checks have timeout 3 s > interval 1 s and scripts with 'slow' probes (200 after 1.6 s: later than the interval, within the timeout - a success). reload_convergence variants include a change the server never sees (only the local port differs): the entry changed all the same and must be closed and registered again. local_start_failure: deterministic probe - the server accepts a proxy that cannot be started at the client (https2http plugin with nonexistent certificate files); it must be withdrawn at the server.",
     "C20": " controller_exchange also checks that each party's answer carries its own transaction id and that the receiver is still reading when the sender starts. controller_history: the same pair asks 7 or 9 times without a success report, so every behaviour of the controller's list is produced; each answer pair must satisfy the same oracle. discover_late_response: deterministic probe.",
 }
 
